@@ -62,6 +62,11 @@ def build_tree(files, rng, archive_extra=(), path_word=None):
             f.write(files[-1][1])
         if rng.random() < 0.5:
             os.symlink(os.path.join(pel, files[0][0]), os.path.join(pel, "link_to_file"))
+        if rng.random() < 0.4:
+            # links whose targets lie below the top level or outside the directory: whatever happens to a link, its target stays
+            os.symlink(os.path.join(pel, "archive", "deep.pel"), os.path.join(pel, rng.choice(["link_to_archived", "zz_link_%08X" % rng.randrange(1 << 32)])))
+        if rng.random() < 0.4:
+            os.symlink(os.path.join(root, "outside.pel"), os.path.join(pel, "link_outside"))
     for name, data in archive_extra:
         # a log that exists below the top level only (an archived copy): no option may reach it
         with open(os.path.join(pel, "archive", name), "wb") as f:
@@ -150,6 +155,8 @@ def run(run, model, proof):
             before = snapshot(root)
             walk = next(os.walk(pel))[2]
             regular = {w: os.path.isfile(os.path.join(pel, w)) for w in walk}
+            known = {f[0] for f in files}
+            link_data = {w: open(os.path.join(pel, w), "rb").read() for w in walk if w not in known and os.path.islink(os.path.join(pel, w)) and regular[w]}
             rc, out, err = cli_runner.run_inproc(argv)
             after = snapshot(root)
         finally:
@@ -200,8 +207,8 @@ def run(run, model, proof):
         data_of = {f[0]: f[1] for f in files}
         for w in walk:
             p = data_of.get(w)
-            if p is None:      # the symlink to a file: same content as its target
-                p = files[0][1] if files else b""
+            if p is None:      # a symbolic link to a file: the content of its target
+                p = link_data.get(w, b"")
             args += [w, bytes([1 if regular[w] else 0]), p]
         eff = model.call("cli_effects", *args)
         m_removed = sorted("logs/" + n for k2, n in eff if k2 == "remove" and not (kind == "delete-all" and "logs/" + n in links))
